@@ -16,7 +16,7 @@ import (
 )
 
 type Op struct {
-	K      string   `json:"k"` // join | leave | send
+	K      string   `json:"k"` // join | leave | send | stall | unstall | barrier | sync
 	N      uint64   `json:"n"`
 	TT     string   `json:"tt,omitempty"`   // token topic
 	Path   string   `json:"path,omitempty"` // path as the server sees it
@@ -24,6 +24,9 @@ type Op struct {
 	MT     int      `json:"mt,omitempty"`
 	ID     uint64   `json:"id,omitempty"`
 	Seq    int      `json:"seq,omitempty"`
+	Slow   bool     `json:"slow,omitempty"` // join with a 4 KiB receive buffer (a reader that will lag)
+	Fill   int      `json:"fill,omitempty"` // send: bytes of filler derived from (id, sender, seq) after the header
+	NB     bool     `json:"nb,omitempty"`   // send: no waiting afterwards (burst)
 }
 
 type Seen struct {
@@ -35,9 +38,17 @@ type Seen struct {
 }
 
 type Case struct {
-	Ops  []Op   `json:"ops"`
-	Seen []Seen `json:"seen"`
-	Kind string `json:"kind"`
+	Ops     []Op   `json:"ops"`
+	Seen    []Seen `json:"seen"`
+	Kind    string `json:"kind"`
+	Discard string `json:"discard,omitempty"`
+}
+
+func (o Op) payload() []byte {
+	if o.Fill > 0 {
+		return hubkit.PayloadFill(o.ID, o.N, o.Seq, o.TT, o.Fill)
+	}
+	return hubkit.Payload(o.ID, o.N, o.Seq, o.TT)
 }
 
 const bufferSize = 128
@@ -57,8 +68,11 @@ func (o Op) coq() string {
 	case "leave":
 		return lib.App("OLeave", lib.N(o.N))
 	}
-	data := hubkit.Payload(o.ID, o.N, o.Seq, o.TT)
-	return lib.App("OSend", lib.N(o.N), lib.N(uint64(o.MT)), lib.N(uint64(len(data))), "["+lib.N(o.ID)+"]")
+	size := len(hubkit.Payload(o.ID, o.N, o.Seq, o.TT))
+	if o.Fill > 0 {
+		size = len(hubkit.PayloadFill(o.ID, o.N, o.Seq, o.TT, 0)) + o.Fill
+	}
+	return lib.App("OSend", lib.N(o.N), lib.N(uint64(o.MT)), lib.N(uint64(size)), "["+lib.N(o.ID)+"]")
 }
 
 func (c Case) coq() string {
@@ -69,9 +83,12 @@ func (c Case) coq() string {
 			noCode[s.N] = true
 		}
 	}
+	if c.Discard != "" {
+		return "([], [])" // kept only so that case numbers stay aligned
+	}
 	ops := []string{}
 	for _, o := range c.Ops {
-		if !noCode[o.N] {
+		if !noCode[o.N] && (o.K == "join" || o.K == "leave" || o.K == "send") {
 			ops = append(ops, o.coq())
 		}
 	}
@@ -187,12 +204,101 @@ func genHistory(r *lib.Rng) []Op {
 	return ops
 }
 
+// genLag: a reader lags (it stops reading a socket whose receive buffer is 4 KiB; big messages first
+// block the relay's writer for it) while connections on ITS topic and on OTHER topics - and the
+// lagging reader itself when it may write - send bursts without waiting in between, so that a
+// backlog sits in the relay's queues while other traffic passes. Payloads carry a filler derived
+// from their own header. Nobody joins or leaves during a burst and the backlog stays below the
+// buffer size, so what each connection must receive does not depend on the hub's order.
+func genLag(r *lib.Rng) []Op {
+	perm := make([]int, len(topics))
+	for i := range perm {
+		perm[i] = i
+	}
+	for i := len(perm) - 1; i > 0; i-- {
+		j := r.Intn(i + 1)
+		perm[i], perm[j] = perm[j], perm[i]
+	}
+	tA, tB, tC := topics[perm[0]], topics[perm[1]], topics[perm[2]]
+	if r.Bool() {
+		tA, tB = "a", []string{"ab", "a/b", "a-"}[r.Intn(3)]
+	}
+	rw := []string{"read", "write"}
+	var ops []Op
+	join := func(tt string, scopes []string, slow bool) uint64 {
+		nextName++
+		ops = append(ops, Op{K: "join", N: nextName, TT: tt, Path: "/session/" + tt, Scopes: scopes, Slow: slow})
+		return nextName
+	}
+	seq := 0
+	send := func(n uint64, tt string, fill int, nb bool) {
+		seq++
+		nextID++
+		ops = append(ops, Op{K: "send", N: n, TT: tt, MT: 1 + r.Intn(2), ID: nextID, Seq: seq, Fill: fill, NB: nb})
+	}
+	type snd struct {
+		n  uint64
+		tt string
+	}
+	lagScopes := rw
+	if r.Chance(1, 4) {
+		lagScopes = []string{"read"}
+	}
+	lag := join(tA, lagScopes, true)
+	x := join(tA, rw, false)
+	senders := []snd{{x, tA}}
+	if r.Bool() {
+		senders = append(senders, snd{join(tA, rw, false), tA})
+	}
+	senders = append(senders, snd{join(tB, rw, false), tB}, snd{join(tB, rw, false), tB})
+	if r.Bool() {
+		senders = append(senders, snd{join(tC, rw, false), tC}, snd{join(tC, []string{"read"}, false), tC})
+	}
+	if has(lagScopes, "write") {
+		senders = append(senders, snd{lag, tA})
+	}
+	for k := r.Range(1, 3); k > 0; k-- {
+		sd := senders[r.Intn(len(senders))]
+		send(sd.n, sd.tt, r.Range(1, 200), false)
+	}
+	for round := r.Range(1, 2); round > 0; round-- {
+		ops = append(ops, Op{K: "stall", N: lag})
+		for k := r.Range(9, 11); k > 0; k-- {
+			send(x, tA, 1<<20, false) // fills the socket: the relay's writer for the lagging reader blocks
+		}
+		for k := r.Range(20, 40); k > 0; k-- {
+			sd := senders[r.Intn(len(senders))]
+			send(sd.n, sd.tt, r.Range(40, 3000), true)
+		}
+		ops = append(ops, Op{K: "unstall", N: lag})
+		for _, sd := range senders {
+			ops = append(ops, Op{K: "barrier", N: sd.n})
+		}
+		ops = append(ops, Op{K: "sync"})
+	}
+	for k := r.Range(0, 2); k > 0; k-- {
+		sd := senders[r.Intn(len(senders))]
+		send(sd.n, sd.tt, 0, false)
+	}
+	return ops
+}
+
+func has(ss []string, x string) bool {
+	for _, s := range ss {
+		if s == x {
+			return true
+		}
+	}
+	return false
+}
+
 func digest(f *hubkit.Frame) {
 	tags, junk := hubkit.ParseTags(f.Data)
 	if junk > 0 {
 		tags = append(tags, hubkit.Tag{ID: 0})
 	}
 	f.Info = tags
+	f.Data = nil
 }
 
 func tagsOf(p *hubkit.Peer) []hubkit.Tag {
@@ -209,10 +315,30 @@ func runCase(k *hubkit.Kit, c *Case, res *lib.Result) []*hubkit.Peer {
 	var order []*hubkit.Peer
 	expected := map[uint64]int{}
 	topicSeen := map[uint64]string{}
+	stalled := map[uint64]bool{}
+	waitAll := func() {
+		for _, q := range order {
+			if stalled[q.Name] || q.Refused != "" {
+				continue
+			}
+			if ended, _, _ := q.Ended(); ended {
+				continue
+			}
+			want, qq := expected[q.Name], q
+			if !hubkit.WaitFor(k.Slack, func() bool { return len(tagsOf(qq)) >= want }) {
+				res.Count("send:delivery-wait-expired")
+				expected[q.Name] = len(tagsOf(qq))
+			}
+		}
+	}
 	for _, o := range c.Ops {
 		switch o.K {
 		case "join":
-			p := k.Join(o.N, o.TT, o.Path, o.Scopes, digest)
+			buf := 0
+			if o.Slow {
+				buf = 4096
+			}
+			p := k.JoinBuf(o.N, o.TT, o.Path, o.Scopes, digest, buf)
 			peers[o.N] = p
 			order = append(order, p)
 			res.Count("join:" + map[bool]string{true: "registered", false: "refused-" + p.Refused}[p.Refused == ""])
@@ -231,24 +357,41 @@ func runCase(k *hubkit.Kit, c *Case, res *lib.Result) []*hubkit.Peer {
 				res.Count("send:skipped-refused-sender")
 				continue
 			}
-			_, acked := k.Send(p, o.MT, hubkit.Payload(o.ID, o.N, o.Seq, o.TT), true)
-			if !acked {
+			if !has(p.Scopes, "write") {
+				k.Send(p, o.MT, o.payload(), !o.NB)
+				res.Count("send:by-non-writer")
+				continue
+			}
+			_, acked := k.Send(p, o.MT, o.payload(), !o.NB && !stalled[o.N])
+			if !acked && !o.NB && !stalled[o.N] {
 				res.Count("send:no-ack")
+			}
+			if o.NB {
+				res.Count("send:burst")
 			}
 			// waiting hint only (never compared): the peers the script believes are on this topic
 			for _, q := range order {
-				if q != p && q.Refused == "" && q.TokenTopic == p.TokenTopic {
+				if q != p && q.Refused == "" && q.TokenTopic == p.TokenTopic && has(q.Scopes, "read") {
 					if ended, _, _ := q.Ended(); !ended {
 						expected[q.Name]++
-						want := expected[q.Name]
-						qq := q
-						if !hubkit.WaitFor(k.Slack, func() bool { return len(tagsOf(qq)) >= want }) {
-							res.Count("send:delivery-wait-expired")
-							expected[q.Name] = len(tagsOf(qq))
-						}
 					}
 				}
 			}
+			if !o.NB {
+				waitAll()
+			}
+		case "stall":
+			peers[o.N].Stall(true)
+			stalled[o.N] = true
+		case "unstall":
+			peers[o.N].Stall(false)
+			stalled[o.N] = false
+		case "barrier":
+			if p := peers[o.N]; p != nil && p.Refused == "" && !k.Barrier(p) {
+				res.Count("barrier:no-pong")
+			}
+		case "sync":
+			waitAll()
 		}
 	}
 	time.Sleep(20 * time.Millisecond) // anything delivered where the script did not expect it
@@ -262,6 +405,9 @@ func runCase(k *hubkit.Kit, c *Case, res *lib.Result) []*hubkit.Peer {
 		}
 		sort.Slice(s.IDs, func(i, j int) bool { return s.IDs[i] < s.IDs[j] })
 		c.Seen = append(c.Seen, s)
+		if ended, byServer, _ := p.Ended(); ended && byServer && c.Kind == "lag" {
+			c.Discard = "lagging-reader-cut" // its backlog outgrew the buffer: what it got depends on the hub order
+		}
 	}
 	return order
 }
@@ -275,6 +421,10 @@ func oracle(c Case, idx int, peers []*hubkit.Peer, res *lib.Result) {
 		for _, t := range tagsOf(p) {
 			if t.ID == 0 {
 				continue
+			}
+			if t.BadFill {
+				res.Violate(lib.Violation{Clause: "content-of-another-message", Case: idx, Key: "content-of-another-message",
+					Detail: fmt.Sprintf("connection %d (topic %q): the bytes after the header of message id %d (sender %d, topic %q) are not that message's", p.Name, p.TokenTopic, t.ID, t.Sender, t.Topic), Replay: c})
 			}
 			if t.Sender == p.Name {
 				res.Violate(lib.Violation{Clause: "echo", Case: idx, Key: "echo",
@@ -307,6 +457,9 @@ func main() {
 		for i := 0; i < n; i++ {
 			cases = append(cases, Case{Ops: genHistory(rng.Fork()), Kind: "history"})
 		}
+		for i, m := 0, a.Pick(40, 300); i < m; i++ {
+			cases = append(cases, Case{Ops: genLag(rng.Fork()), Kind: "lag"})
+		}
 	}
 	coq := make([]string, len(cases))
 	for i := range cases {
@@ -318,6 +471,10 @@ func main() {
 		hubkit.KeepAlive(peers)
 		c := cases[i]
 		coq[i] = c.coq()
+		res.Count("kind:" + c.Kind)
+		if c.Discard != "" {
+			res.Count("discarded:" + c.Discard)
+		}
 		res.CountN("ops", len(c.Ops))
 		for _, o := range c.Ops {
 			res.Count("op:" + o.K)
